@@ -303,6 +303,8 @@ pub fn text_presentable(p: &Program) -> bool {
         }
     }
     p.clauses.iter().all(|c| atom_ok(&c.name) && !crate::render::RESERVED.contains(&c.name.as_str()) && c.args.iter().all(term_ok) && c.body.as_ref().map_or(true, goal_ok))
+        // the parsers reject complex terms and rules longer than 1000 bytes (documented: "String is too long")
+        && p.clauses.iter().all(|c| crate::render::clause(c, &crate::render::CANON).len() <= 800)
 }
 
 fn count_output_goals(g: &Goal) -> u64 {
